@@ -235,7 +235,7 @@ Config generate(DP &dp, const GenOpts &o) {
 	Config c;
 	G g{dp, o};
 	c.hexnums = !dp.chance(64);
-	int nb = dp.range(o.need_track_output ? 1 : 0, o.max_boards);
+	int nb = dp.range(std::max(o.min_boards, o.need_track_output ? 1 : 0), o.max_boards);
 	std::set<std::string> uids;
 	for (int bi = 0; bi < nb; bi++) {
 		Board b;
